@@ -336,11 +336,9 @@ fn parse_fields<'input, 'state>(
 
         DeriveType::Unnamed => {
             let mut parsed_fields =
-                parse_fields_impl(state, |attr, field, len| match attr {
-                    "source" => {
-                        len == 1
-                            && !is_type_path_ends_with_segment(&field.ty, "Backtrace")
-                    }
+                parse_fields_impl(state, |attr, field, _| match attr {
+                    // Depends on which field is used as the backtrace: `infer_source_field()`.
+                    "source" => false,
                     "backtrace" => {
                         is_type_path_ends_with_segment(&field.ty, "Backtrace")
                     }
@@ -391,14 +389,23 @@ fn infer_source_field(
     fields: &[&syn::Field],
     parsed_fields: &ParsedFields,
 ) -> Option<usize> {
-    // if we have exactly two fields (and none of them is ignored, so indices
-    // of all the fields and of the considered ones coincide)
-    if fields.len() != 2 || parsed_fields.data.fields.len() != 2 {
+    // no source field was specified/inferred
+    if parsed_fields.source.is_some() {
         return None;
     }
 
-    // no source field was specified/inferred
-    if parsed_fields.source.is_some() {
+    // if we have exactly one field (which is not ignored)
+    if fields.len() == 1 && parsed_fields.data.fields.len() == 1 {
+        // then it is the source field, unless it is used as the backtrace field
+        // or was explicitly marked as non-source
+        return (parsed_fields.backtrace.is_none()
+            && parsed_fields.data.infos[0].info.source != Some(false))
+        .then_some(0);
+    }
+
+    // if we have exactly two fields (and none of them is ignored, so indices
+    // of all the fields and of the considered ones coincide)
+    if fields.len() != 2 || parsed_fields.data.fields.len() != 2 {
         return None;
     }
 
